@@ -266,7 +266,7 @@ TAuthorizeResp ==
 
 TImpactList ==
   /\ Ev.a \in {"ImpactList", "AuthzPeers", "AuthSrvListEquip", "QueryEquipment",
-               "QueryRecent", "SyncRead", "SyncServers"}
+               "QueryRecent"}
   /\ UNCHANGED vars /\ KeepAux
 
 TImpactSet ==
@@ -417,6 +417,41 @@ TMigrateResp ==
   /\ pend' = NoPend
   /\ UNCHANGED <<vars, rot, atag>>
 
+(* TCP sync: first critical section (device data), second (server list),   *)
+(* then the reply as decoded by the harness's reference decoder.           *)
+TSyncRead ==
+  /\ Ev.a = "SyncRead"
+  /\ Apply(UNCHANGED vars)
+  /\ pend' = [kind |-> "sync", id |-> Ev.id, data |-> SyncData(Ev.id), list |-> <<>>]
+  /\ UNCHANGED <<rot, atag>>
+
+TSyncServers ==
+  /\ Ev.a = "SyncServers"
+  /\ ("SyncRead" \in Strict => pend.kind = "sync" /\ UnServers(Ev.servers) = servers)
+  /\ pend' = IF pend.kind = "sync" THEN [pend EXCEPT !.list = servers] ELSE pend
+  /\ UNCHANGED <<vars, rot, atag>>
+
+UnBits(b) == {b[i] : i \in DOMAIN b}
+TSyncResp ==
+  /\ Ev.a = "SyncResp"
+  /\ ("SyncRead" \in Strict =>
+        IF pend.kind # "sync" \/ pend.id # Ev.id
+        THEN FALSE
+        ELSE IF ~pend.data.known THEN Ev.refused
+        ELSE /\ ~Ev.refused
+             /\ Ev.key = pend.data.key
+             /\ Ev.offset = pend.data.offset
+             /\ UnBits(Ev.bits) = pend.data.bits
+             /\ Ev.mig.present = pend.data.mig.present
+             /\ (pend.data.mig.present =>
+                    /\ Ev.mig.newgca = pend.data.mig.newgca /\ Ev.mig.newid = pend.data.mig.newid
+                    /\ UnSig(Ev.mig.sig) = pend.data.mig.sig
+                    /\ UnServers(Ev.servers) = pend.data.migservers)
+             /\ (~pend.data.mig.present => UnServers(Ev.servers) = pend.list)
+             /\ Ev.listok /\ Ev.sigok /\ Ev.fresh)
+  /\ pend' = NoPend
+  /\ UNCHANGED <<vars, rot, atag>>
+
 TNext ==
   /\ l <= Len(Trace)
   /\ Step
@@ -428,6 +463,7 @@ TNext ==
      \/ TQueryStats \/ TStatsResp
      \/ TEquipmentResp \/ TCheckInv \/ TBatchBegin \/ TRegisterInBatch \/ TBatchEnd
      \/ TAuthorizeServer \/ TAuthorizeServerResp \/ TServersResp \/ TMigrate \/ TMigrateResp
+     \/ TSyncRead \/ TSyncServers \/ TSyncResp
   /\ InvCheck
 
 TInit ==
